@@ -629,10 +629,12 @@ def check_C11(ctx):
                 "independently: per kept function the pairs form a strictly increasing, name-preserving map from input operator starts onto all output operator starts except inserted ones "
                 "(edit-inserted marked instructions, the else walrus adds); every function range equals the output entry [size LEB, end); code_section_start equals the offset of the code "
                 "section's contents; no pair belongs to code that was not emitted; for {unchanged, GC, instructions inserted through the builder}. Design: Body.tla (the emitted string is the "
-                "parsed one after elision, in order) makes the monotone onto map unique. A case is one (module, variant).")
+                "parsed one after elision, in order) makes the monotone onto map unique; Layout.tla: PairsJoinSameInstruction, NoPairForUnwritten, RangesTile over every small "
+                "configuration. A case is one (module, variant).")
     q = ctx.quick()
     cfg = write_cfg("MC_Body_gen", "SPECIFICATION BSpec\nCONSTANTS\n  MaxLen = %d\n  MaxDepth = 3\nINVARIANTS\n  EmittedMatches\n  EmittedBalanced\nCHECK_DEADLOCK FALSE\n" % (5 if q else 6))
     model_check(ctx, "Body", cfg=cfg, workers=8, label="design-body")
+    layout_model(ctx)
     ctl = enum_control_strings(ctx, 4 if q else 5)
     n = 300 if q else 10000
     trace = os.path.join(ctx.work, "xform.ndjson")
@@ -652,11 +654,14 @@ def check_C10(ctx):
                 "instruction); one sequence per function and one sequence spanning all functions) x function counts / body sizes around LEB boundaries x {unchanged, GC, instructions inserted "
                 "through the builder}, run with DWARF generation on; rows and subprograms read back with gimli::read; TLC requires every output row to sit at the start of the output "
                 "instruction its instruction became (per the code transform that C11 judges), with equal file/column/is_stmt, every surviving instruction's row present exactly once, rows and "
-                "subprograms of removed code absent or tombstoned, every subprogram range equal to the function's output entry. Design: Body.tla (order-preserving elision) + Layout facts "
-                "checked by C11. A case is one (module, DWARF flavour, variant).")
+                "subprograms of removed code absent or tombstoned, every subprogram range equal to the function's output entry. Design: Body.tla (order-preserving elision) and Layout.tla -- "
+                "the address conversion of debug/expression.rs transcribed (instruction / instruction edge / offset in function / function edge / unknown, inclusive and exclusive "
+                "preference) over every configuration of <= 2 functions x <= 3 instructions x kept / dropped instructions x GC x insertions x write order: RowsFollowInstructions, "
+                "RowsOfUnwrittenDropped, RowsOfRemovedDropped, SubprogramsFollowFunctions, SubprogramsOfRemovedTombstoned. A case is one (module, DWARF flavour, variant).")
     q = ctx.quick()
     cfg = write_cfg("MC_Body_gen", "SPECIFICATION BSpec\nCONSTANTS\n  MaxLen = %d\n  MaxDepth = 3\nINVARIANTS\n  EmittedMatches\n  EmittedBalanced\nCHECK_DEADLOCK FALSE\n" % (5 if q else 6))
     model_check(ctx, "Body", cfg=cfg, workers=8, label="design-body")
+    layout_model(ctx)
     n = 36 if q else 1500
     trace = os.path.join(ctx.work, "dwarf.ndjson")
     out = wv(["trace-dwarf", "inputs=manyimp,bodysizes,gen:%d:small,gen:%d,gen:%d:many,fixtures" % (n, n // 3, 4 if q else 40), "seed=%d" % ctx.seed, "out=" + trace])
@@ -706,6 +711,22 @@ def types_oracle(ctx, prop):
     cases = judge_shards(ctx, "Trace_Types", ["%s.%d" % (trace, k) for k in range(shards)], label="types", slim=lambda c: {"id": c["id"], "ops": [e["e"] for e in c["events"]]})
     ctx.notes["type_interner_behaviours"] = {"enumerated": len(a), "simulated": len(b), "replayed": len(cases)}
     return cases
+
+
+def layout_model(ctx):
+    """Layout.tla: byte layout before / after, the recorded code transform and the DWARF address conversion, over every
+    configuration up to the bound; the two legacy switches must each produce a counterexample (vacuity guard)."""
+    q = ctx.quick()
+    base = open(os.path.join(SPEC, "MC_Layout.cfg")).read()
+    # quick: <= 2 functions of <= 2 instructions exhaustively is a few seconds; the full bound takes most of a minute
+    cfg = write_cfg("MC_Layout_gen", base.replace("MaxInstrs = 3", "MaxInstrs = %d" % (2 if q else 3)))
+    model_check(ctx, "Layout", cfg=cfg, workers=8, label="design-layout")
+    for flag in ("LegacyLowPc", "NopsUnrecorded"):
+        cfg = write_cfg("MC_Layout_%s_gen" % flag, base.replace("MaxInstrs = 3", "MaxInstrs = 2").replace(flag + " = FALSE", flag + " = TRUE"))
+        r = tlc("Layout", cfg=cfg, workers=4, cont=False, name="layout-" + flag)
+        if "is violated" not in r.out:
+            raise ToolError("vacuity: Layout.tla with %s = TRUE satisfies every invariant" % flag)
+        ctx.add_mc(r, "design-layout(%s: counterexample found, as it must be)" % flag)
 
 
 def locals_oracle(ctx, prop):
